@@ -10,7 +10,7 @@ ID=$1; DIR=$2
 export GOFLAGS=-mod=mod GOPROXY=off GOSUMDB=off GOTOOLCHAIN=local; unset GOWORK
 cd /verif
 W=$(mktemp -d /tmp/refrun.XXXX)
-mkdir -p $W/repo $W/verif; rsync -a --exclude .git /repo/ $W/repo/; cp known_findings.json anchors.json $W/verif/
+mkdir -p $W/repo $W/verif; rsync -a --exclude .git /repo/ $W/repo/; cp known_findings.json anchors.json fields.json $W/verif/
 if ! (cd $W/repo && patch -p1 -s --no-backup-if-mismatch < "$DIR/patch.diff"); then echo "$ID: PATCH DOES NOT APPLY"; rm -rf $W; exit 3; fi
 B=ok; (cd $W/repo && go build ./... >/dev/null 2>&1) || B=FAIL
 T=$(cd $W/repo && go test -vet=off -count=1 ./... 2>&1 | grep -v "no test files" | grep -vc "^ok")
